@@ -241,6 +241,19 @@ def extract_range(ctx, F):
         ok_in = has_self and has_prev
     if not ok_in:
         problems.append('input shape is not {self.input_shape if start == 0, else the shape recorded with operator start-1}')
+    # which ranges are accepted: exactly the non-empty ones inside the queue, `start < end <= len` -- the range up to the last layer included
+    # (every split point k gives extract_range(0, k) and extract_range(k, n))
+    START, END, LEN = ('param', 'start'), ('param', 'end'), ('call', 'Vec::len', (('field', ('param', 'self'), 'operators'),))
+    if pushes:
+        lits_ = literals(b, R, pushes[0].bb)
+        facts_ = [(op, s(x), s(y)) for op, x, y in prune.cmp_facts(lits_)]
+
+        def holds(op, x, y):
+            swap = {'Lt': 'Gt', 'Gt': 'Lt', 'Le': 'Ge', 'Ge': 'Le'}
+            return (op, x, y) in facts_ or (swap[op], y, x) in facts_
+        strict_end = holds('Lt', END, LEN)
+        if not (holds('Lt', START, END) and holds('Le', END, LEN)) or strict_end:
+            problems.append('the accepted ranges are not exactly start < end <= number of queued layers%s' % (' (end == len is refused: the last layer can never be extracted)' if strict_end else ''))
     if problems:
         for p_ in problems:
             ctx.bad('C18.R4', 'Architecture::extract_range', p_, b.span)
